@@ -14,7 +14,7 @@ def hook_commits():
 
 CLAIMED = {
  "C03": dict(cat="exploration", ref="DESIGN.md section 4 (C03)",
-   text="Bounded liveness and crash freedom inside isolated simulated processes: every case (1..5 options - or 66..90 in the many-options source - with a drawn subset backed by set environment variables whose contents are valid, empty, blank, separator-only, invalid or raw bytes; a spec that is grammar-derived / nested-repetition shaped / byte-mutated incl. truncated multi-byte characters / raw bytes; an argv of <= 6 tokens) must end in a documented outcome (positioned, printable spec error; acceptance with the Action run once; usage error with the Action not run). Instrumented Points are the steps of simulated time. Three budgets decide directly, deterministically and in-process because what they bound is polynomial in the input: > 200 000 consecutive iterations of a lexer/parser/matcher/shortcut-elimination loop (stuck-in-loop), > 1 M Points in one spec compilation, a call stack deeper than 100 000 frames (runaway-recursion). The total step budget only nominates; nominated cases and cases on which the worker process dies or stalls are re-run alone in a fresh OS process with budgets lifted, and only that verdict counts (died / hung = violation; still backtracking in the matcher when the clock runs out = known finding KF-C03-1). Quick 150 k cases, thorough 12 M.",
+   text="Bounded liveness and crash freedom inside isolated simulated processes: every case (1..5 options - or 66..90 in the many-options source - with a drawn subset backed by set environment variables whose contents are valid, empty, blank, separator-only, invalid or raw bytes; a spec that is grammar-derived / nested-repetition shaped / byte-mutated incl. truncated multi-byte characters / raw bytes; an argv of <= 6 tokens) must end in a documented outcome (positioned, printable spec error; acceptance with the Action run once; usage error with the Action not run). Instrumented Points are the steps of simulated time. Three budgets decide directly, deterministically and in-process because what they bound is polynomial in the input: > 200 000 consecutive iterations of a lexer/parser/matcher/shortcut-elimination loop (stuck-in-loop), > 1 M Points in one spec compilation, a call stack deeper than 100 000 frames (runaway-recursion). The total step budget only nominates; nominated cases and cases on which the worker process dies or stalls are re-run alone in a fresh OS process with budgets lifted, and only that verdict counts (died / hung = violation; still backtracking in the matcher when the clock runs out = known finding KF-C03-1). Histories: an application of the same process whose help listing panics and is recovered before the observed one; the same application object run again with the same command line (a documented outcome again; the same spec error when the spec does not compile); scheduled pairs. Quick 150 k cases, thorough 12 M.",
    note="Sampling. Trusted: the stuck-loop / compile / depth budgets as 'does not terminate' (they bound polynomial work); the wall clock only for processes that pass no Point at all; Go runtime stack limit 256 MiB in workers. Exponential backtracking on the pinned tree is a known finding, not an alarm.",
    tech="deterministic simulation: seeded workload + environment states, step/depth budgets as simulated-time liveness bound, worker-process crash and stall detection with fresh-process confirmation"),
  "C05": dict(cat="fault_enumeration", ref="DESIGN.md section 4 (C05), Appendix B",
@@ -22,7 +22,7 @@ CLAIMED = {
    note="Trusted: the Goexit exit seam as a model of os.Exit; the reference model (validated against the tree on all 13 104 vectors with an Action before the framework was built); Go runtime. Sampling beyond depth 2.",
    tech="deterministic simulation: seeded + exhaustive callback-fault injection with an exit seam, checked against an executable reference model of the flow"),
  "C06": dict(cat="exploration", ref="DESIGN.md section 4 (C06 and C15), Appendix B",
-   text="The environment is simulator-owned ambient state: each listed variable is unset / empty / valid / invalid / blank-padded (name lists separated by any white space), sometimes changed between the declarations and Run; the command line gives the value 0..3 times, for the 7 built-in types as option and argument, declared through the struct, Ptr (optionally pre-populated variable) and convenience forms, with zero / non-zero defaults. A structural sweep enumerates (type, opt/arg, default, env list length and states, number of command-line values, spec shape) completely (25 200 combinations, tokens seeded); seeded, scheduled-pairs and multi-container phases (2..5 options listed individually / OPTIONS / folded group, folded command lines, two list options sharing one default slice object) draw everything. History: the same application object parses a second command line. Oracle: the precedence reference model whose validity and values come from strconv, read inside the Action and after Run. One known finding (KF-C06-1) is matched by a predicate on the violating case.",
+   text="The environment is simulator-owned ambient state: each listed variable is unset / empty / valid / invalid / blank-padded (name lists separated by any white space), sometimes changed between the declarations and Run; the command line gives the value 0..3 times, for the 7 built-in types as option and argument, declared through the struct, Ptr (optionally pre-populated variable) and convenience forms, with zero / non-zero defaults. A structural sweep enumerates (type, opt/arg, default, env list length and states, number of command-line values, spec shape) completely (25 200 combinations, tokens seeded); seeded, scheduled-pairs and multi-container phases (2..5 options listed individually / OPTIONS / folded group, folded command lines, two list options sharing one default slice object) draw everything. Histories: the same application object parses a second command line; the environment changes between two declarations of one application (each declaration reads it at its own moment). String values include CR / LF / TAB endings; multi-container cases include `--` in the spec, `--` as a positional's value and a custom value with IsBoolFlag()==false as a bystander. Oracle: the precedence reference model whose validity and values come from strconv, read inside the Action and after Run. One known finding (KF-C06-1) is matched by a predicate on the violating case.",
    note="Trusted: strconv as the definition of validity; the model. Cases that the library rejects are skipped (acceptance is C12/C13's subject) - the evidence counts them (0 on the pinned tree).",
    tech="deterministic simulation: environment-state fault injection (unset/empty/invalid/padded) against an executable precedence model"),
  "C07": dict(cat="exploration", ref="DESIGN.md section 4 (C07 and C14)",
@@ -31,15 +31,15 @@ CLAIMED = {
    tech="deterministic simulation: rejection and Set-error injection x stream fault plans x error policies, process end observed at an exit seam"),
  "C12": dict(cat="exploration", ref="DESIGN.md section 4 (C12)",
    text="Relation between two simulated worlds that differ only in environment content: world A has every owned variable unset, world B sets a valid value for a drawn non-empty subset of the env-backed options (and sometimes removes or spoils it again after the declarations, which must not matter). Same application (declarations + grammar-derived spec) and command line (walk of the spec, folded / mutated) in both. Oracle: accepted in A => accepted in B, identical values for options written on the command line (specs without `--`); directed modes: an option occurring once is removed from the command line and left to the environment (must be accepted), an env-backed option given 2..4 times under -x..., [-x]..., [OPTIONS]. Seven cases in eight use flags / strings / string lists only (no conversion can fail); the rest keep typed containers, where known finding KF-C12-1 is observed and matched by predicate. 60 k cases quick, 8 M thorough.",
-   note="Sampling. A world-B run that exceeds the step budget is re-run with a 100x budget before it counts as not accepted; exceeding the depth budget counts as not accepted.",
+   note="Sampling. A world-B run that exceeds the step budget is re-run with a 25x budget; if it is still searching then, the case is nominated and re-run alone in a fresh process with the budgets lifted (verdict, or 'still backtracking' = C03's subject, never 'not accepted'); exceeding the depth, stuck-loop or compile budget counts as not accepted.",
    tech="deterministic simulation: two-world metamorphic relation over environment content with seeded specs and command lines"),
  "C13": dict(cat="exploration", ref="DESIGN.md section 4 (C13) - weak fit, stated",
-   text="Edge-case tokens (numeric boundaries, signs, exponents, hex/underscore forms, inf/nan, blanks, unicode digits, invalid UTF-8, empty string, byte mutations) for the 7 built-in types, delivered by every route: --opt=T, -o=T, -oT, -o T, --opt T, positional (also after `--`), environment scalar and environment list element; optionally followed / preceded by a valid occurrence. "
+   text="Edge-case tokens (numeric boundaries, signs, exponents, hex/underscore forms, inf/nan, blanks, unicode digits, invalid UTF-8, empty string, byte mutations) for the 7 built-in types, delivered by every route: --opt=T, -o=T, -oT, -o T, --opt T, positional (also after `--`), environment scalar and environment list element; optionally followed / preceded by a valid occurrence - or by 1 030..6 500 of them (long command lines; the liveness budgets grow with the number of tokens). "
         "Oracle: acceptance and value per strconv; an unparsable command-line token in any position => usage error and the Action never runs; an unparsable environment token falls through. Only the delivery route and the rejection history are simulation; the token generator is plain input generation. 60 k quick, 4 M thorough.",
    note="Sampling. strconv is the reference. Environment list delivery uses an empty default so that KF-C06-1 (C06's subject) is not observed here.",
    tech="deterministic simulation (weak fit): token delivery through command-line spellings and the simulated environment, strconv as reference model"),
  "C14": dict(cat="exploration", ref="DESIGN.md section 4 (C07 and C14) - weak fit, stated",
-   text="Same world as C07: a help token inserted at a drawn position of a drawn level (optionally with another level made invalid on purpose: ancestors and the level itself must not be validated), a help token after the level's own `--` (ordinary data, bound verbatim), or a declared version flag in first position; stream fault plans; all three application policies, the expected end following the addressed command's effective policy; seeded, scheduled-pairs and session phases (one application object asked for help at different levels of a tree up to depth 6). Oracle: nothing runs, `Usage: <addressed path>` (names may contain %, dots, non-ASCII) and the long description on a healthy stream, exit 0 once under ExitOnError and return nil otherwise.",
+   text="Same world as C07: a help token inserted at a drawn position of a drawn level (optionally with another level made invalid on purpose: ancestors and the level itself must not be validated), a help token after the level's own `--` (ordinary data, bound verbatim), or a declared version flag in first position; stream fault plans; all three application policies, the expected end following the addressed command's effective policy; seeded, scheduled-pairs and session phases (one application object asked for help at different levels of a tree up to depth 6, then for the help of a command registered after those runs). Trees include commands declaring their own -h, hidden commands, indented multi-line long descriptions, white-space-only EnvVar strings, version strings with % or empty. Oracle: nothing runs, `Usage: <addressed path>` (names may contain %, dots, non-ASCII) and the long description on a healthy stream, exit 0 once under ExitOnError and return nil otherwise.",
    note="Sampling. Not generated (excluded by the property): help below an ancestor whose own arguments contain `--`.",
    tech="deterministic simulation: help/version short-circuit observed at the exit seam under stream fault plans and all error policies"),
  "C15": dict(cat="exploration", ref="DESIGN.md section 4 (C06 and C15)",
@@ -47,11 +47,11 @@ CLAIMED = {
    note="Sampling beyond the structural sweep; cases the library rejects are skipped and counted.",
    tech="deterministic simulation: environment-state fault injection, SetByUser checked against command-line presence"),
  "C19": dict(cat="exploration", ref="DESIGN.md section 4 (C19), Appendix B",
-   text="The user-supplied flag.Value is a simulator-owned probe: one Go type per subset of {IsBoolFlag, Clear, IsDefault} (plus IsBoolFlag()==false), every call logged, Set failing on a drawn call (never / k-th call of the Run phase / during declaration) with one of seven error values (flag.ErrHelp, wrapped, io.EOF, empty text, texts equal to the library's own messages ...); as option and argument in template specs, declared through VarOpt/VarArg structs or convenience methods, with environment list states and 0..3 command-line tokens in every spelling (bare, folded, =value incl. ParseBool spellings, separate, attached, `--` as an operand), optionally with a second probe container; a scheduled-pairs phase makes Set a scheduling point. Oracle over the Run-phase call history: Clear exactly once iff present and before any Set, then Set of exactly the bound tokens in order, nothing when no token is bound; a Set error => usage error, Action not run, no further Set.",
+   text="The user-supplied flag.Value is a simulator-owned probe: one Go type per subset of {IsBoolFlag, Clear, IsDefault} (plus IsBoolFlag()==false), every call logged, Set failing on a drawn call (never / k-th call of the Run phase / during declaration) with one of seven error values (flag.ErrHelp, wrapped, io.EOF, empty text, texts equal to the library's own messages ...); as option and argument in template specs, declared through VarOpt/VarArg structs or convenience methods, with environment list states and 0..3 command-line tokens in every spelling (bare, folded, =value incl. ParseBool spellings, separate, attached, `--` as an operand), optionally with a second probe container, rarely with the value given 1 030..4 200 times (long command lines); a scheduled-pairs phase makes Set a scheduling point; the same application object is run a second time. Oracle over the Run-phase call history: Clear exactly once iff present and before any Set, then Set of exactly the bound tokens in order, nothing when no token is bound; a Set error => usage error, Action not run, no further Set.",
    note="Sampling beyond the sweep. Non-mutating calls (String, IsBoolFlag, IsDefault) are ignored wherever they occur; after a failing Set the other container's history only has to be a prefix of its protocol (map iteration order).",
    tech="deterministic simulation: instrumented user value types with injected Set failures, call-history oracle"),
  "C20": dict(cat="exploration", ref="DESIGN.md section 4 (C20), 3.5, 3.11",
-   text="N = 2..6 independent applications drawn from all the other generators (plus twins sharing spec string and names but not types, and siblings sharing declarations - hence the host program's default slice objects - with another command line) are run alone (twice, each from pristine user-program state) and then together as simulated processes under a cooperative scheduler that parks every process at each instrumented Point, callback and stream write and draws every switch from the tape (uniform / PCT-like / coarse / serial-order strategies): each application's outcome together (end, exit code, panic identity, events, bound values, SetByUser, probe call logs, stderr transcript) must equal its solo outcome, and rebuilding and rerunning must give the same acceptance and values. Also: environment mutated between declaration and Run must not matter; for one world in eight every application is run alone in its own fresh OS process and all of them one after another in one more (order histories that replay); and a race-detector stage runs the same worlds on real parallel goroutines (-race, GOMAXPROCS 16). Quick 6 k scheduled worlds + 800 race-mode worlds; thorough 400 k + 60 k.",
+   text="N = 2..6 independent applications drawn from all the other generators (plus twins sharing spec string and names but not types, and siblings sharing declarations - hence the host program's default slice objects - with another command line) are run alone (twice, each from pristine user-program state) and then together as simulated processes under a cooperative scheduler that parks every process at each instrumented Point, callback and stream write and draws every switch from the tape (uniform / PCT-like / coarse / serial-order strategies): each application's outcome together (end, exit code, panic identity, events, bound values, SetByUser, probe call logs, stderr transcript) must equal its solo outcome, and rebuilding and rerunning must give the same acceptance and values. Also: environment mutated between declaration and Run must not matter; for one world in eight every application is run alone in its own fresh OS process and all of them one after another in one more (order histories that replay); and a race-detector stage runs the same worlds on real parallel goroutines (-race, GOMAXPROCS 16). In the race stage the sequential reference runs keep the Point hook (and so the step budget) on; a world with an application that exceeds it is skipped. Quick 6 k scheduled worlds + 800 race-mode worlds; thorough 400 k + 60 k.",
    note="Sampling of schedules. The race-detector stage is not schedule-controlled (which interleaving occurs is up to the Go scheduler); it is sound because the detector reports only real races, and its replay re-runs the same world up to 5 x 400 times. Map iteration order is contained, not controlled: fields that depend on it (error text of a failing Set when several containers are filled) are excluded from the comparison.",
    tech="deterministic simulation: cooperative seeded scheduler over instrumented Points (non-interference vs solo runs) + race detector on free-running goroutines"),
 }
